@@ -824,3 +824,97 @@ func cachedSetters(p *packages.Package, decls map[*types.Func]*ast.FuncDecl) map
 	}
 	return out
 }
+
+// E6MemoIndependent: a setter that memoises two graphics-state parameters checks each of them on its own.
+func E6MemoIndependent(c *core.Ctx, r *core.Report) {
+	r.Rule("E6.memo-independent", "in the PDF and PostScript writers a setter that memoises more than one graphics-state parameter (line join and miter limit; dash array and phase) emits and remembers each parameter whenever *that* parameter differs from its memo. The test of one memo field may not sit in the else-branch of the test of another: when the first parameter changes, the second would neither be written nor remembered, and the viewer keeps a stale value (a miter stroke after a round one would be drawn with the previous miter limit)")
+	n := 0
+	for _, rel := range []string{"renderers/pdf", "renderers/ps"} {
+		p := c.MustPkg(rel)
+		info := p.TypesInfo
+		decls := map[*types.Func]*ast.FuncDecl{}
+		for _, fd := range core.AllFuncDecls(p) {
+			if f, ok := info.Defs[fd.Name].(*types.Func); ok {
+				decls[f] = fd
+			}
+		}
+		for f, fields := range cachedSetters(p, decls) {
+			if len(fields) < 2 {
+				continue
+			}
+			fd := decls[f]
+			recv := info.Defs[fd.Recv.List[0].Names[0]]
+			fieldsIn := func(e ast.Node) map[string]bool {
+				out := map[string]bool{}
+				ast.Inspect(e, func(m ast.Node) bool {
+					if sel, ok := m.(*ast.SelectorExpr); ok {
+						if id, ok := core.Unparen(sel.X).(*ast.Ident); ok && core.ObjOf(info, id) == recv {
+							for _, fn := range fields {
+								if sel.Sel.Name == fn {
+									out[fn] = true
+								}
+							}
+						}
+					}
+					return true
+				})
+				return out
+			}
+			n++
+			key := fmt.Sprintf("%s.%s|memo fields %s are tested independently", p.Types.Name(), core.FuncName(fd), strings.Join(fields, ", "))
+			bad := ""
+			var badPos token.Pos
+			ast.Inspect(fd.Body, func(m ast.Node) bool {
+				is, ok := m.(*ast.IfStmt)
+				if !ok || is.Else == nil {
+					return true
+				}
+				a := fieldsIn(is.Cond)
+				var elseCond ast.Expr
+				var elseBody ast.Node
+				if ei, ok := is.Else.(*ast.IfStmt); ok {
+					elseCond, elseBody = ei.Cond, ei.Body
+				}
+				if elseCond == nil {
+					return true
+				}
+				b := fieldsIn(elseCond)
+				for fb := range b {
+					if !a[fb] && len(a) > 0 && bad == "" {
+						// the else-branch stores fb?
+						stores := false
+						ast.Inspect(elseBody, func(k ast.Node) bool {
+							if as, ok := k.(*ast.AssignStmt); ok {
+								for _, l := range as.Lhs {
+									if fieldsIn(l)[fb] {
+										stores = true
+									}
+								}
+							}
+							return true
+						})
+						if stores {
+							var other []string
+							for fa := range a {
+								other = append(other, fa)
+							}
+							sort.Strings(other)
+							bad = fmt.Sprintf("the memo `%s` is only compared and updated when `%s` did not change (else-branch of its test)", fb, strings.Join(other, ", "))
+							badPos = ei0(is.Else).Pos()
+						}
+					}
+				}
+				return true
+			})
+			if bad == "" {
+				r.OK("E6.memo-independent", key, c.Pos(fd.Pos()), "")
+			} else {
+				r.Fail("E6.memo-independent", key, c.Pos(badPos), bad)
+			}
+		}
+	}
+	r.Count("E6.multi-memo-setters", n)
+	r.Floor("E6.multi-memo-setters", 1)
+}
+
+func ei0(s ast.Stmt) ast.Node { return s }
